@@ -453,3 +453,7 @@ impl TryFrom<scion_protobuf::control_plane::v1::SegmentsResponse> for SegmentsPa
         SegmentsPage::try_from_rpc(value)
     }
 }
+
+#[cfg(kani)]
+#[path = "/verif/kani/sciparse/c18_rpc.rs"]
+mod verif_c18_rpc;
